@@ -514,3 +514,105 @@ def c19_probes(sig):
             P.append(dict(name=f"c19-{slug}-unit", prop="C19", entry=e, role="use", run=False, key=None,
                           src=_c19_prog(twin, unit_T, fc), externs=[], sig=s["name"]))
     return P, missing
+
+
+# ------------------------------------------------------------------------------------------------
+# C16 / C12: branded data hiding in an untraced parameter of a provided `Collect` impl
+# ------------------------------------------------------------------------------------------------
+HIDDEN_PRELUDE = r'''#![allow(unused, dead_code)]
+use gc_arena::{Arena, Collect, Gc, Rootable, Static};
+use std::cell::{Cell, RefCell};
+use std::hash::{BuildHasher, DefaultHasher, Hasher};
+use std::marker::PhantomData;
+
+thread_local! { static SEED_DROPPED: Cell<bool> = Cell::new(false); }
+/// Lives in the arena (allocated with `Gc::new_static`); its destructor is observable.
+struct Seed { key: u64 }
+impl Drop for Seed { fn drop(&mut self) { self.key = 0xDEAD_DEAD; SEED_DROPPED.with(|d| d.set(true)); } }
+
+/// A hasher factory whose state is a `&'gc Seed` borrowed from the arena (`Gc::as_ref`).
+#[derive(Clone, Copy)]
+struct RefSeeded<'gc> { seed: &'gc Seed }
+impl<'gc> BuildHasher for RefSeeded<'gc> {
+    type Hasher = DefaultHasher;
+    fn build_hasher(&self) -> DefaultHasher { let mut h = DefaultHasher::new(); h.write_u64(self.seed.key); h }
+}
+/// A hasher factory whose state is a `Gc<'gc, Seed>` that nothing traces.
+#[derive(Clone, Copy)]
+struct GcSeeded<'gc> { seed: Gc<'gc, Seed> }
+impl<'gc> BuildHasher for GcSeeded<'gc> {
+    type Hasher = DefaultHasher;
+    fn build_hasher(&self) -> DefaultHasher { let mut h = DefaultHasher::new(); h.write_u64(self.seed.key); h }
+}
+fn verdict(still_stored: bool) {
+    let dropped = SEED_DROPPED.with(|d| d.get());
+    if still_stored && dropped {
+        println!("RESULT unsafe: the seed's destructor ran while a reference to it (produced in an earlier callback) is still stored in, and readable from, the arena root");
+    } else {
+        println!("RESULT safe: stored={still_stored} dropped={dropped}");
+    }
+}
+'''
+
+
+def _hidden_prog(holder, build, touch, stored="true"):
+    return HIDDEN_PRELUDE + f'''
+type Holder<'gc> = {holder};
+
+fn main() {{
+    // callback #1 produces the branded value and leaves it in the root
+    let mut arena = Arena::<Rootable![Holder<'_>]>::new(|mc| {{
+        let seed: Gc<'_, Seed> = Gc::new_static(mc, Seed {{ key: 0x5EED }});
+        {build}
+    }});
+    // nothing the collector can see refers to the seed any more
+    arena.finish_cycle();
+    // callback #2 finds the value of callback #1 again (it is not dereferenced here)
+    let still_stored = arena.mutate(|_, root| {{ {touch}; {stored} }});
+    verdict(still_stored);
+}}
+'''
+
+
+def hidden_brand_probes(collect):
+    """One escape attempt per provided `Collect` impl that has a parameter which is held but not
+    traced (hasher states, `Static<T>`, `Cell<T>` / `RefCell<T>`, `&'static T`), in two variants
+    (`&'gc Seed`, untraced `Gc<'gc, Seed>`); plus `PhantomData<branded>` as the legitimate twin."""
+    P = []
+    H = {
+        "hashMap": ("std::collections::HashMap<u32, u32, {S}>", "let mut h: Holder<'_> = std::collections::HashMap::with_hasher({s}); h.insert(1, 10); h", "let _ = root.hasher()", ()),
+        "hashSet": ("std::collections::HashSet<u32, {S}>", "let mut h: Holder<'_> = std::collections::HashSet::with_hasher({s}); h.insert(1); h", "let _ = root.hasher()", ()),
+        "hbHashMap": ("hashbrown::HashMap<u32, u32, {S}>", "let mut h: Holder<'_> = hashbrown::HashMap::with_hasher({s}); h.insert(1, 10); h", "let _ = root.hasher()", ("hashbrown",)),
+        "hbHashSet": ("hashbrown::HashSet<u32, {S}>", "let mut h: Holder<'_> = hashbrown::HashSet::with_hasher({s}); h.insert(1); h", "let _ = root.hasher()", ("hashbrown",)),
+        "indexMap": ("indexmap::IndexMap<u32, u32, {S}>", "let mut h: Holder<'_> = indexmap::IndexMap::with_hasher({s}); h.insert(1, 10); h", "let _ = root.hasher()", ("indexmap",)),
+        "indexSet": ("indexmap::IndexSet<u32, {S}>", "let mut h: Holder<'_> = indexmap::IndexSet::with_hasher({s}); h.insert(1); h", "let _ = root.hasher()", ("indexmap",)),
+    }
+    V = {
+        "staticWrapper": ("Static<{T}>", "Static({v})", "let _ = &root.0"),
+        "cell": ("Cell<Option<{T}>>", "Cell::new(Some({v}))", "let _ = root.as_ptr()"),
+        "refCell": ("RefCell<Option<{T}>>", "RefCell::new(Some({v}))", "let _ = root.borrow().is_some()"),
+    }
+    for e in collect["entries"]:
+        sk = e["shape"]
+        ent = "hidden: " + e["text"]
+        also = ["impl: " + e["text"]]
+        slug = _slug(sk)
+
+        def add(tag, role, src, externs=(), run=True):
+            P.append(dict(name=f"c16-hidden-{slug}-{tag}", prop="C16", entry=ent, also=also, role=role, run=run, key=None, src=src, externs=list(externs)))
+        if sk in H:
+            holder, build, touch, ext = H[sk]
+            add("ref", "attack", _hidden_prog(holder.replace("{S}", "RefSeeded<'gc>"), build.replace("{s}", "RefSeeded { seed: seed.as_ref() }"), touch), ext)
+            add("gc", "attack", _hidden_prog(holder.replace("{S}", "GcSeeded<'gc>"), build.replace("{s}", "GcSeeded { seed }"), touch), ext)
+            add("static-hasher", "use", _hidden_prog(holder.replace("{S}", "std::collections::hash_map::RandomState"),
+                                                    build.replace("{s}", "std::collections::hash_map::RandomState::new()"), touch, stored="false"), ext)
+        elif sk in V:
+            holder, build, touch = V[sk]
+            add("ref", "attack", _hidden_prog(holder.replace("{T}", "&'gc Seed"), build.replace("{v}", "seed.as_ref()"), touch))
+            add("gc", "attack", _hidden_prog(holder.replace("{T}", "Gc<'gc, Seed>"), build.replace("{v}", "seed"), touch))
+        elif sk == "staticRef":
+            add("ref", "attack", _hidden_prog("&'gc Seed", "seed.as_ref()", "let _: &&Seed = root"))
+        elif sk == "phantomData":
+            # phantom-only: no value is stored, nothing can dangle — must stay accepted
+            add("branded-phantom", "use", _hidden_prog("PhantomData<&'gc Seed>", "let _ = seed; PhantomData", "let _ = root", stored="false"))
+    return P
